@@ -31,9 +31,19 @@ Definition check_cp (rt : float) (c : cp_case) : list nat :=
   (if vsame mag cl rt [cp_tsc o] [cc_tsc c] then [] else [7%nat]) ++
   (if mcl cl (rt * vmag mag (cc_sigma c))%float rt Cs (mdiag K k (cc_sigma c)) then [] else [8%nat]).
 
+(* squared covariance fractions of an MCA fit: the residual formula of the source (Cpcca.scf_modes) against squared_covariance_fraction() *)
+Record scf_case := mkSC { sc_n : nat; sc_p1 : nat; sc_p2 : nat; sc_k : nat; sc_X : list (list F); sc_Y : list (list F);
+  sc_Q1 : list (list F); sc_Q2 : list (list F); sc_tsc : F; sc_scf : list F }.
+Definition check_scf (rt : float) (c : scf_case) : bool :=
+  vcl cl rt rt (scf_modes K (sc_n c) (sc_p1 c) (sc_p2 c) (sc_k c) (sc_X c) (sc_Y c) (sc_Q1 c) (sc_Q2 c) (sc_tsc c)) (sc_scf c).
+Definition check_scfs (rt : float) (cs : list scf_case) : list nat :=
+  concat (map (fun ic => if check_scf rt (snd ic) then [] else [fst ic]) (combine (seq 0 (length cs)) cs)).
+
 Definition check_cps (rt : float) (cs : list cp_case) : list (nat * nat) :=
   concat (map (fun ic => map (fun f => (fst ic, f)) (check_cp rt (snd ic))) (combine (seq 0 (length cs)) cs)).
 End Case.
 
 Definition check_cps_f64 := @check_cps float OF64 PrimFloat.abs fclose.
+Definition check_scfs_f64 := @check_scfs float OF64 fclose.
+Definition check_scfs_c64 := @check_scfs cfloat OC64 cclose.
 Definition check_cps_c64 := @check_cps cfloat OC64 (fun a => fst (c_abs a)) cclose.
